@@ -9,6 +9,8 @@ def run(c):
         "that panics with a non-error value makes Decode return (nil, nil) — modelled and compared in stream dec.soup-badhost, not judged",
         "no bound on running time is claimed beyond termination: Tuple.Hash re-hashes shared sub-tuples (exponential on adversarial DAGs)",
         "Go stack exhaustion from ~10^7-deep nesting in Hash is not modelled",
+        "record level: one fixture project (a function target referencing a constant, a helper with a default, a list/tuple/dict global); "
+        "the persisted stamp is the only corrupted input; rename atomicity of the file system is assumed",
         "INT text other than canonical decimal: the model answers `either` (Go may accept or reject), so only no-crash is constrained",
     ]
     c.coverage["rule"] = (
@@ -17,7 +19,8 @@ def run(c):
         "every truncation of encodings of <=200 bytes; grammar-guided opcode soups of 1-40 fragments (well-formed list/dict/set/host "
         "fragments mixed with hostile ops: out-of-range memo ids, wrong operand types, odd SETITEMS, declared lengths beyond what "
         "follows, 24 INT texts, unknown opcodes), with host unpickler / nil unpickler / panicking host; all programs of two "
-        "implemented opcodes. Each Decode runs under recover and a 20 s watchdog. Non-trivial = Go answers ok; distinct by input.")
+        "implemented opcodes. Each Decode runs under recover and a 20 s watchdog. Record level: 60 (3000 thorough) corruptions of "
+        "a persisted function-target record, each followed by Load+Run in a child process. Non-trivial = Go answers ok; distinct by input.")
     c.prove()
     exe = pc.harness(c)
     drv = c.driver("drv_pickle")
@@ -32,6 +35,14 @@ def run(c):
                 sample={"judge": "Decode returns (non-nil well-formed value, nil) or (nil, error); a panic escaping Decode, a hang, "
                                  "(nil, nil) or a value with a nil slot is a violation", "evaluations": stats.get("c15.judged", 0)},
                 hist={k: v for k, v in stats.items() if k.startswith(("outcome.", "c15."))})
+        c.count("rec.judge", stats.get("rec.cases", 0),
+                sample={"judge": "fresh child process: Load + Run(//:default) on a project whose function-target record was corrupted "
+                                 "(file bytes, stamp not base64, stamp = mutated/truncated/foreign/soup pickle): the child must exit without "
+                                 "a Go panic or hang, and may treat the target as up to date only if the stamp still decodes to the same "
+                                 "environment", "cases": stats.get("rec.cases", 0)},
+                hist={k: v for k, v in stats.items() if k.startswith("rec.")})
+        if stats.get("rec.setup-failed"):
+            c.broken.append("record stream: the clean build of the fixture project failed")
         pc.report(c, viols)
     return c
 
